@@ -1,7 +1,343 @@
-//! C13 operations (op names start with `c13.`)
-#[allow(unused_imports)]
+//! C13 — `Int<LIMBS>` as two's-complement integers: add / sub / neg, sign decomposition, products
+//! through magnitudes, resize, from primitives.  Every op computes the inherent method AND all thin
+//! forwarding forms (trait methods, operators by value / reference / assigning, `Checked<Int>`,
+//! `Wrapping<Int>`); a form that disagrees with its inherent method prints `forms-differ:<name>`.
+#![allow(clippy::all)]
 use crate::util::*;
+use crypto_bigint::{
+    Checked, CheckedAdd, CheckedMul, CheckedSub, ConstChoice, ConstCtOption, Int, Uint, Wrapping,
+};
+use num_traits::{WrappingAdd, WrappingSub};
+use std::panic::{AssertUnwindSafe, catch_unwind};
+use subtle::CtOption;
 
-pub fn dispatch(_op: &str, _a: &[&str]) -> Option<String> {
-    None
+fn oi<const N: usize>(v: Option<Int<N>>) -> String {
+    v.map(|x| ihex(&x)).unwrap_or("none".into())
+}
+fn ou<const N: usize>(v: Option<Uint<N>>) -> String {
+    v.map(|x| uhex(&x)).unwrap_or("none".into())
+}
+fn cc<const N: usize>(v: ConstCtOption<Int<N>>) -> Option<Int<N>> {
+    v.into()
+}
+fn ct<const N: usize>(v: CtOption<Int<N>>) -> Option<Int<N>> {
+    v.into()
+}
+fn ck<const N: usize>(v: Checked<Int<N>>) -> Option<Int<N>> {
+    v.0.into()
+}
+/// an operator that panics on overflow, as an option
+fn caught<T>(f: impl FnOnce() -> T) -> Option<T> {
+    catch_unwind(AssertUnwindSafe(f)).ok()
+}
+
+struct Forms(Option<String>);
+impl Forms {
+    fn new() -> Self {
+        Forms(None)
+    }
+    fn same<T: PartialEq>(&mut self, name: &str, got: T, want: &T) {
+        if self.0.is_none() && got != *want {
+            self.0 = Some(format!("forms-differ:{name}"));
+        }
+    }
+    fn done(self, s: String) -> String {
+        self.0.unwrap_or(s)
+    }
+}
+
+fn add<const N: usize>(a: &[&str]) -> Option<String> {
+    let (x, y) = (arg!(int::<N>(a[0])), arg!(int::<N>(a[1])));
+    let (ov, of) = x.overflowing_add(&y);
+    let c = cc(x.checked_add(&y));
+    let w = x.wrapping_add(&y);
+    let mut f = Forms::new();
+    f.same("CheckedAdd", ct(CheckedAdd::checked_add(&x, &y)), &c);
+    f.same("WrappingAdd", WrappingAdd::wrapping_add(&x, &y), &w);
+    f.same("+", caught(|| x + y), &c);
+    f.same("+&", caught(|| x + &y), &c);
+    f.same("+=", caught(|| { let mut t = x; t += y; t }), &c);
+    f.same("+=&", caught(|| { let mut t = x; t += &y; t }), &c);
+    let (cx, cy) = (Checked::new(x), Checked::new(y));
+    f.same("Checked+", ck(cx + cy), &c);
+    f.same("Checked+&", ck(cx + &cy), &c);
+    f.same("&Checked+", ck(&cx + cy), &c);
+    f.same("&Checked+&", ck(&cx + &cy), &c);
+    f.same("Checked+=", ck({ let mut t = cx; t += cy; t }), &c);
+    f.same("Checked+=&", ck({ let mut t = cx; t += &cy; t }), &c);
+    // a none operand stays none
+    let none = Checked(CtOption::new(x, 0.into()));
+    f.same("Checked(none)+", ck(none + cy), &None);
+    f.same("Checked+(none)", ck(cy + none), &None);
+    let (wx, wy) = (Wrapping(x), Wrapping(y));
+    f.same("Wrapping+", (wx + wy).0, &w);
+    f.same("Wrapping+&", (wx + &wy).0, &w);
+    f.same("&Wrapping+", (&wx + wy).0, &w);
+    f.same("&Wrapping+&", (&wx + &wy).0, &w);
+    f.same("Wrapping+=", { let mut t = wx; t += wy; t.0 }, &w);
+    f.same("Wrapping+=&", { let mut t = wx; t += &wy; t.0 }, &w);
+    Some(f.done(format!("{} {} {} {}", ihex(&ov), cchoice(of), oi(c), ihex(&w))))
+}
+
+fn sub<const N: usize>(a: &[&str]) -> Option<String> {
+    let (x, y) = (arg!(int::<N>(a[0])), arg!(int::<N>(a[1])));
+    let c = ct(CheckedSub::checked_sub(&x, &y));
+    let w = WrappingSub::wrapping_sub(&x, &y);
+    let mut f = Forms::new();
+    f.same("-", caught(|| x - y), &c);
+    f.same("-&", caught(|| x - &y), &c);
+    let (cx, cy) = (Checked::new(x), Checked::new(y));
+    f.same("Checked-", ck(cx - cy), &c);
+    f.same("Checked-&", ck(cx - &cy), &c);
+    f.same("&Checked-", ck(&cx - cy), &c);
+    f.same("&Checked-&", ck(&cx - &cy), &c);
+    f.same("Checked-=", ck({ let mut t = cx; t -= cy; t }), &c);
+    f.same("Checked-=&", ck({ let mut t = cx; t -= &cy; t }), &c);
+    let none = Checked(CtOption::new(x, 0.into()));
+    f.same("Checked(none)-", ck(none - cy), &None);
+    f.same("Checked-(none)", ck(cy - none), &None);
+    let (wx, wy) = (Wrapping(x), Wrapping(y));
+    f.same("Wrapping-", (wx - wy).0, &w);
+    f.same("Wrapping-&", (wx - &wy).0, &w);
+    f.same("&Wrapping-", (&wx - wy).0, &w);
+    f.same("&Wrapping-&", (&wx - &wy).0, &w);
+    f.same("Wrapping-=", { let mut t = wx; t -= wy; t.0 }, &w);
+    f.same("Wrapping-=&", { let mut t = wx; t -= &wy; t.0 }, &w);
+    Some(f.done(format!("{} {}", oi(c), ihex(&w))))
+}
+
+fn neg<const N: usize>(a: &[&str]) -> Option<String> {
+    let x = arg!(int::<N>(a[0]));
+    let (ov, of) = x.overflowing_neg();
+    let c = cc(x.checked_neg());
+    let w = x.wrapping_neg();
+    let mut f = Forms::new();
+    f.same("neg_if(true)", x.wrapping_neg_if(ConstChoice::TRUE), &w);
+    f.same("neg_if(false)", x.wrapping_neg_if(ConstChoice::FALSE), &x);
+    Some(f.done(format!("{} {} {} {}", ihex(&ov), cchoice(of), oi(c), ihex(&w))))
+}
+
+fn sign<const N: usize>(a: &[&str]) -> Option<String> {
+    let x = arg!(int::<N>(a[0]));
+    let (abs, sgn) = x.abs_sign();
+    let mut f = Forms::new();
+    f.same("abs", x.abs(), &abs);
+    f.same("abs_sign.1", cchoice(sgn), &cchoice(x.is_negative()));
+    Some(f.done(format!(
+        "{} {} {} {} {}",
+        cchoice(x.is_negative()),
+        cchoice(x.is_positive()),
+        cchoice(x.is_min()),
+        cchoice(x.is_max()),
+        uhex(&abs)
+    )))
+}
+
+fn from_abs_sign<const N: usize>(a: &[&str]) -> Option<String> {
+    let (m, s) = (arg!(uint::<N>(a[0])), arg!(toconst(a[1])));
+    Some(oi(cc(Int::<N>::new_from_abs_sign(m, s))))
+}
+
+fn square<const N: usize>(a: &[&str]) -> Option<String> {
+    let x = arg!(int::<N>(a[0]));
+    let c: Option<Uint<N>> = x.checked_square().into();
+    Some(format!("{} {} {}", ou(c), uhex(&x.wrapping_square()), uhex(&x.saturating_square())))
+}
+
+fn ck_mul<const N: usize>(a: &[&str]) -> Option<String> {
+    let (x, y) = (arg!(int::<N>(a[0])), arg!(int::<N>(a[1])));
+    let c = ct(CheckedMul::checked_mul(&x, &y));
+    let mut f = Forms::new();
+    let (cx, cy) = (Checked::new(x), Checked::new(y));
+    f.same("Checked*", ck(cx * cy), &c);
+    f.same("Checked*&", ck(cx * &cy), &c);
+    f.same("&Checked*", ck(&cx * cy), &c);
+    f.same("&Checked*&", ck(&cx * &cy), &c);
+    f.same("Checked*=", ck({ let mut t = cx; t *= cy; t }), &c);
+    f.same("Checked*=&", ck({ let mut t = cx; t *= &cy; t }), &c);
+    let none = Checked(CtOption::new(x, 0.into()));
+    f.same("Checked(none)*", ck(none * cy), &None);
+    f.same("Checked*(none)", ck(cy * none), &None);
+    Some(f.done(oi(c)))
+}
+
+fn from_prim<const N: usize>(a: &[&str]) -> Option<String> {
+    let k = arg!(dec(a[0]));
+    let w = arg!(hex_words(a[1], 2));
+    let x = (w[0] as u128) | ((w[1] as u128) << 64);
+    let mut f = Forms::new();
+    let r: Int<N> = match k {
+        8 => { let v = x as u8 as i8; f.same("From<i8>", Int::<N>::from(v), &Int::<N>::from_i8(v)); Int::from_i8(v) }
+        16 => { let v = x as u16 as i16; f.same("From<i16>", Int::<N>::from(v), &Int::<N>::from_i16(v)); Int::from_i16(v) }
+        32 => { let v = x as u32 as i32; f.same("From<i32>", Int::<N>::from(v), &Int::<N>::from_i32(v)); Int::from_i32(v) }
+        64 => { let v = x as u64 as i64; f.same("From<i64>", Int::<N>::from(v), &Int::<N>::from_i64(v)); Int::from_i64(v) }
+        128 => { let v = x as i128; f.same("From<i128>", Int::<N>::from(v), &Int::<N>::from_i128(v)); Int::from_i128(v) }
+        _ => return Some(BAD.to_string()),
+    };
+    Some(f.done(ihex(&r)))
+}
+
+// ---- two widths
+
+fn resize<const N: usize, const T: usize>(a: &[&str]) -> Option<String> {
+    let x = arg!(int::<N>(a[0]));
+    Some(ihex(&x.resize::<T>()))
+}
+
+fn split_mul<const N: usize, const M: usize>(a: &[&str]) -> Option<String> {
+    let (x, y) = (arg!(int::<N>(a[0])), arg!(int::<M>(a[1])));
+    let (lo, hi, s) = x.split_mul(&y);
+    Some(format!("{} {} {}", uhex(&lo), uhex(&hi), cchoice(s)))
+}
+
+fn checked_mul<const N: usize, const M: usize>(a: &[&str]) -> Option<String> {
+    let (x, y) = (arg!(int::<N>(a[0])), arg!(int::<M>(a[1])));
+    let c = ct(CheckedMul::checked_mul(&x, &y));
+    let mut f = Forms::new();
+    f.same("*", caught(|| x * y), &c);
+    f.same("*&", caught(|| x * &y), &c);
+    f.same("&*", caught(|| &x * y), &c);
+    f.same("&*&", caught(|| &x * &y), &c);
+    Some(f.done(oi(c)))
+}
+
+fn split_mul_uint<const N: usize, const M: usize>(a: &[&str]) -> Option<String> {
+    let (x, y) = (arg!(int::<N>(a[0])), arg!(uint::<M>(a[1])));
+    let (lo, hi, s) = x.split_mul_uint(&y);
+    Some(format!("{} {} {}", uhex(&lo), uhex(&hi), cchoice(s)))
+}
+
+fn split_mul_uint_right<const N: usize, const M: usize>(a: &[&str]) -> Option<String> {
+    let (x, y) = (arg!(int::<N>(a[0])), arg!(uint::<M>(a[1])));
+    let (lo, hi, s) = x.split_mul_uint_right(&y);
+    Some(format!("{} {} {}", uhex(&lo), uhex(&hi), cchoice(s)))
+}
+
+fn checked_mul_uint<const N: usize, const M: usize>(a: &[&str]) -> Option<String> {
+    let (x, y) = (arg!(int::<N>(a[0])), arg!(uint::<M>(a[1])));
+    let c = ct(CheckedMul::checked_mul(&x, &y));
+    let mut f = Forms::new();
+    f.same("*", caught(|| x * y), &c);
+    f.same("*&", caught(|| x * &y), &c);
+    f.same("&*", caught(|| &x * y), &c);
+    f.same("&*&", caught(|| &x * &y), &c);
+    Some(f.done(oi(c)))
+}
+
+fn checked_mul_uint_right<const N: usize, const M: usize>(a: &[&str]) -> Option<String> {
+    let (x, y) = (arg!(int::<N>(a[0])), arg!(uint::<M>(a[1])));
+    Some(oi(ct(x.checked_mul_uint_right(&y))))
+}
+
+fn widening<const N: usize, const M: usize, const W: usize>(op: &str, a: &[&str]) -> Option<String>
+where
+    Uint<N>: crypto_bigint::ConcatMixed<Uint<M>, MixedOutput = Uint<W>>,
+{
+    let x = arg!(int::<N>(a[0]));
+    Some(match op {
+        "c13.widening_mul" => ihex(&x.widening_mul(&arg!(int::<M>(a[1])))),
+        "c13.widening_mul_uint" => ihex(&x.widening_mul_uint(&arg!(uint::<M>(a[1])))),
+        _ => return None,
+    })
+}
+
+fn widening_square<const N: usize, const W: usize>(a: &[&str]) -> Option<String>
+where
+    Uint<N>: crypto_bigint::ConcatMixed<Uint<N>, MixedOutput = Uint<W>>,
+{
+    let x = arg!(int::<N>(a[0]));
+    Some(uhex(&x.widening_square()))
+}
+
+/// (lhs limbs, rhs limbs) pairs compiled for the mixed-width operations
+macro_rules! with_pair {
+    ($n:expr, $m:expr, $f:ident, $($args:expr),*) => {
+        match ($n, $m) {
+            (1, 1) => $f::<1, 1>($($args),*), (2, 2) => $f::<2, 2>($($args),*),
+            (3, 3) => $f::<3, 3>($($args),*), (4, 4) => $f::<4, 4>($($args),*),
+            (8, 8) => $f::<8, 8>($($args),*), (16, 16) => $f::<16, 16>($($args),*),
+            (1, 2) => $f::<1, 2>($($args),*), (2, 1) => $f::<2, 1>($($args),*),
+            (1, 3) => $f::<1, 3>($($args),*), (3, 1) => $f::<3, 1>($($args),*),
+            (2, 4) => $f::<2, 4>($($args),*), (4, 2) => $f::<4, 2>($($args),*),
+            (3, 4) => $f::<3, 4>($($args),*), (4, 3) => $f::<4, 3>($($args),*),
+            (4, 8) => $f::<4, 8>($($args),*), (8, 4) => $f::<8, 4>($($args),*),
+            (1, 16) => $f::<1, 16>($($args),*), (16, 1) => $f::<16, 1>($($args),*),
+            (8, 16) => $f::<8, 16>($($args),*), (16, 8) => $f::<16, 8>($($args),*),
+            _ => Some("unsupported-width".to_string()),
+        }
+    };
+}
+
+macro_rules! with_w6 {
+    ($n:expr, $f:ident, $($args:expr),*) => {
+        match $n {
+            1 => $f::<1>($($args),*), 2 => $f::<2>($($args),*), 3 => $f::<3>($($args),*),
+            4 => $f::<4>($($args),*), 8 => $f::<8>($($args),*), 16 => $f::<16>($($args),*),
+            _ => Some("unsupported-width".to_string()),
+        }
+    };
+}
+
+fn resize_from<const N: usize>(t: usize, a: &[&str]) -> Option<String> {
+    match t {
+        1 => resize::<N, 1>(a), 2 => resize::<N, 2>(a), 3 => resize::<N, 3>(a),
+        4 => resize::<N, 4>(a), 8 => resize::<N, 8>(a), 16 => resize::<N, 16>(a),
+        _ => Some("unsupported-width".to_string()),
+    }
+}
+
+pub fn dispatch(op: &str, a: &[&str]) -> Option<String> {
+    if a.is_empty() {
+        return None;
+    }
+    let n = arg!(dec(a[0]));
+    match (op, a.len()) {
+        // one width: `op n a [b]`
+        ("c13.add", 3) => with_w6!(n, add, &a[1..]),
+        ("c13.sub", 3) => with_w6!(n, sub, &a[1..]),
+        ("c13.neg", 2) => with_w6!(n, neg, &a[1..]),
+        ("c13.sign", 2) => with_w6!(n, sign, &a[1..]),
+        ("c13.from_abs_sign", 3) => with_w6!(n, from_abs_sign, &a[1..]),
+        ("c13.square", 2) => with_w6!(n, square, &a[1..]),
+        ("c13.ck_mul", 3) => with_w6!(n, ck_mul, &a[1..]),
+        // `c13.from_prim n k x`
+        ("c13.from_prim", 3) => with_w6!(n, from_prim, &a[1..]),
+        ("c13.widening_square", 2) => match n {
+            1 => widening_square::<1, 2>(&a[1..]), 2 => widening_square::<2, 4>(&a[1..]),
+            3 => widening_square::<3, 6>(&a[1..]), 4 => widening_square::<4, 8>(&a[1..]),
+            8 => widening_square::<8, 16>(&a[1..]), 16 => widening_square::<16, 32>(&a[1..]),
+            _ => Some("unsupported-width".to_string()),
+        },
+        // `c13.resize n a t`
+        ("c13.resize", 3) => {
+            let t = arg!(dec(a[2]));
+            with_w6!(n, resize_from, t, &a[1..2])
+        }
+        // two widths: `op n a m b`
+        (_, 4) => {
+            let m = arg!(dec(a[2]));
+            let v = [a[1], a[3]];
+            match op {
+                "c13.split_mul" => with_pair!(n, m, split_mul, &v),
+                "c13.checked_mul" => with_pair!(n, m, checked_mul, &v),
+                "c13.split_mul_uint" => with_pair!(n, m, split_mul_uint, &v),
+                "c13.split_mul_uint_right" => with_pair!(n, m, split_mul_uint_right, &v),
+                "c13.checked_mul_uint" => with_pair!(n, m, checked_mul_uint, &v),
+                "c13.checked_mul_uint_right" => with_pair!(n, m, checked_mul_uint_right, &v),
+                "c13.widening_mul" | "c13.widening_mul_uint" => match (n, m) {
+                    (1, 1) => widening::<1, 1, 2>(op, &v), (2, 2) => widening::<2, 2, 4>(op, &v),
+                    (3, 3) => widening::<3, 3, 6>(op, &v), (4, 4) => widening::<4, 4, 8>(op, &v),
+                    (8, 8) => widening::<8, 8, 16>(op, &v), (16, 16) => widening::<16, 16, 32>(op, &v),
+                    (1, 2) => widening::<1, 2, 3>(op, &v), (2, 1) => widening::<2, 1, 3>(op, &v),
+                    (1, 3) => widening::<1, 3, 4>(op, &v), (3, 1) => widening::<3, 1, 4>(op, &v),
+                    (2, 4) => widening::<2, 4, 6>(op, &v), (4, 2) => widening::<4, 2, 6>(op, &v),
+                    (3, 4) => widening::<3, 4, 7>(op, &v), (4, 3) => widening::<4, 3, 7>(op, &v),
+                    (4, 8) => widening::<4, 8, 12>(op, &v), (8, 4) => widening::<8, 4, 12>(op, &v),
+                    _ => Some("unsupported-width".to_string()),
+                },
+                _ => None,
+            }
+        }
+        _ => None,
+    }
 }
